@@ -15,7 +15,17 @@ def target_codes():
           rule.Rule.resolve_forward_refs.__func__, rule.register_forward_ref, ubase.TypeRegistry.resolve,
           base.BaseParser.apply_for.__func__, transform.TypeTransformer.__call__, transform.TypeTransformer.apply,
           pfunc.FunctionParser.resolve_forward_types]
-    return {f.__code__ for f in fs if f is not None}
+    out = set()
+
+    def add(code):
+        out.add(code)
+        for c in code.co_consts:
+            if hasattr(c, "co_code"):
+                add(c)          # lambdas / comprehensions / closures inside a target are preemption points too
+    for f in fs:
+        if f is not None:
+            add(f.__code__)
+    return out
 
 
 # --------------------------------------------------------------------------------------------
@@ -97,6 +107,17 @@ def make_scenario(spec):
         K = dyn.get(t + "K")
         thunks = [lambda: repr(K(e="a", es=["b"])), lambda: repr(K(e=1))]
         return thunks, K.__parser__
+    if kind == "registered":
+        # a converter registered (single-threaded) for a new type, then its first lookups made by two threads
+        src = ("class %sT(float):\n    pass\n"
+               "class %sR(Schema):\n    t: %sT\n"
+               "@utype.utils.transform.TypeTransformer.registry.register(%sT)\ndef %sconv(trans, data, t):\n    return t(float(data))\n"
+               % (t, t, t, t, t))
+        dyn.declare(src)
+        R, T = dyn.get(t + "R"), dyn.get(t + "T")
+        from utype.utils.transform import type_transform
+        thunks = [lambda: repr(type_transform("21.5", T)), lambda: repr(R(t="21.5")), lambda: repr(type_transform("3", int))][:spec["nthreads"]]
+        return thunks, R.__parser__
     raise ValueError(kind)
 
 
@@ -294,6 +315,7 @@ SCENARIOS = [
     dict(kind="shared", nthreads=2),
     dict(kind="inherit", nthreads=3),
     dict(kind="registry", nthreads=2),
+    dict(kind="registered", nthreads=3),
 ]
 
 
@@ -327,8 +349,8 @@ def explore_suite(res, seed, tier):
         # every single preemption in the first part of the run (where the first use happens), sampled beyond; sampled pairs
         first = min(L, 140)
         singles = [(s, t) for s in range(1, first) for t in range(n)]
-        if tier == "quick":
-            singles = rng.sample(singles, min(len(singles), 70))
+        if tier == "quick" and len(singles) > 260:
+            singles = rng.sample(singles, 70)
         for s, t in singles:
             jobs.append((si, [(s, t)]))
         pairs = 25 if tier == "quick" else 400
@@ -356,6 +378,43 @@ def explore_suite(res, seed, tier):
         res.violations.append(dict(case=repr(dict(kind="interleaving", scenario=o["scenario"], switches=o["switches"])), observed=m, what=m))
 
 
+SEARCH_SPECS = [dict(kind="class", local=True, nthreads=2, fields=[("bare", "B")]),
+                dict(kind="class", local=False, nthreads=2, fields=[("bare", "B"), ("List", "C")])]
+
+
+def search_one(job):
+    warnings.simplefilter("ignore")
+    si, sw = job
+    spec = SEARCH_SPECS[si]
+    exp = expected_of(spec)
+    thunks, _ = make_scenario(spec)
+    r = sched.Run(target_codes(), thunks, sched.chooser(sw)).run()
+    got = normalise(r["results"])
+    if got != exp or r["deadlock"]:
+        return dict(scenario=spec, switches=sw, got=got, alone=exp, deadlock=r["deadlock"])
+    return None
+
+
+def search(res):
+    """the protocol no longer matches the model: look for a schedule on which a call really fails.  Thread 0 runs to step a,
+    thread 1 to step b, thread 0 to its end, thread 1 to its end: every a in thread 0's run, b up to 70 steps later"""
+    jobs = []
+    for si, spec in enumerate(SEARCH_SPECS):
+        thunks, _ = make_scenario(spec)
+        L = len(sched.Run(target_codes(), thunks[:1], sched.chooser([])).run()["trace"])
+        for a in range(1, L):
+            for b in range(a + 1, a + 70, 1):
+                jobs.append((si, [(a, 1), (b, 0)]))
+    outs = core.pool_map(search_one, jobs, soft=30.0, hard=120.0, nproc=max(2, core.NCPU // 2))
+    found = [o for o in outs if isinstance(o, dict)]
+    res.notes.append("search after a broken obligation: %d two-preemption schedules, %d failing" % (len(jobs), len(found)))
+    out = []
+    for o in found[:3]:
+        m = "schedule %r on %r: results %r, alone %r%s" % (o["switches"], o["scenario"], o["got"], o["alone"], " (deadlock)" if o["deadlock"] else "")
+        out.append(dict(case=repr(dict(kind="interleaving", scenario=o["scenario"], switches=o["switches"])), observed=m, what=m))
+    return out
+
+
 def main(tier, seed):
     warnings.simplefilter("ignore")
     res = core.Result(PID, tier, seed)
@@ -364,7 +423,7 @@ def main(tier, seed):
     if core.build(["Model/Concur.vo", "Model/Validators.vo"])["ok"]:
         trace_suite(res, seed, 150 if tier == "quick" else 3000)
     explore_suite(res, seed, tier)
-    return core.finish(res, "make -C coq Props/C20.vo && coqc (Print Assumptions audit)", "see suites", search=None,
+    return core.finish(res, "make -C coq Props/C20.vo && coqc (Print Assumptions audit)", "see suites", search=search,
                        level_note="partial: the theorems are about the first-parse protocol (lock, flag, table, cells, fields) as a transition "
                                   "system, for all thread counts and all schedules; the real code is tied to it by replaying line-level "
                                   "event traces produced under a deterministic scheduler; CPython's own atomicity (a line of the "
